@@ -3263,13 +3263,15 @@ impl GraphEngine {
             tensor.set(key, TensorValue::Scalar(value.to_scalar()));
         }
 
-        self.store.put(Self::node_key(id), tensor)?;
-
-        // Initialize empty edge lists
+        // Initialize the empty edge lists BEFORE the node record becomes visible: a concurrent
+        // create_edge that already sees the node appends to these lists, and writing the empty
+        // lists afterwards would wipe its entries.
         let out_tensor = TensorData::new();
         let in_tensor = TensorData::new();
         self.store.put(Self::outgoing_edges_key(id), out_tensor)?;
         self.store.put(Self::incoming_edges_key(id), in_tensor)?;
+
+        self.store.put(Self::node_key(id), tensor)?;
 
         // Update indexes
         self.index_node_properties(id, &labels, &properties);
@@ -8137,13 +8139,15 @@ impl GraphEngine {
             tensor.set(key, TensorValue::Scalar(value.to_scalar()));
         }
 
-        self.store.put(Self::node_key(id), tensor)?;
-
-        // Initialize empty edge lists
+        // Initialize the empty edge lists BEFORE the node record becomes visible: a concurrent
+        // create_edge that already sees the node appends to these lists, and writing the empty
+        // lists afterwards would wipe its entries.
         let out_tensor = TensorData::new();
         let in_tensor = TensorData::new();
         self.store.put(Self::outgoing_edges_key(id), out_tensor)?;
         self.store.put(Self::incoming_edges_key(id), in_tensor)?;
+
+        self.store.put(Self::node_key(id), tensor)?;
 
         // Update indexes
         self.index_node_properties(id, labels, properties);
